@@ -6,6 +6,7 @@ mod c09;
 mod c10;
 mod c11;
 mod c12;
+mod c13;
 mod c17;
 mod c18;
 mod gen;
@@ -73,6 +74,7 @@ fn main() {
         "C10" => c10::run(seed, count, thorough, &mut out),
         "C11" => c11::run(seed, count, thorough, &mut out),
         "C12" => c12::run(seed, count, thorough, &mut out),
+        "C13" => c13::run(seed, count, thorough, &mut out),
         "C17" => c17::run(&mut out),
         "C18" => c18::run(seed, count, thorough, &mut out),
         other => {
